@@ -11,7 +11,7 @@ P = Category.parse
 
 # ---------------------------------------------------------------- tokens
 SIMPLE = ['a', 'B7']
-BRACKETS = ['(', ')', '[', ']', '{', '}', '<', '>', 'a(b', 'x)', '(y', 'p]q', '<<', 'v>w']
+BRACKETS = ['(', ')', '[', ']', '{', '}', '<', '>', 'a(b', 'x)', '(y', 'p]q', '<<', 'v>w', '<unk>', '</s>', '>=<', '(a)', '[1]']
 ESCAPES = ['-LRB-', '-RRB-', '-RAB-', '-LSB-']
 XMLISH = ['&', '"', "'", '&amp;', 'a&b', '<L', "it's"]
 SLASHES = ['/', '|', 'a/b', '1|2']
